@@ -458,14 +458,21 @@ func Gen(r *verifh.Rng, nsec int, via string) []verifh.Section {
 		// some user functions panic (sf, lc): the deferred cleanup must still free the key and wake the waiters
 		// (rm: the leader's GetResource panics and so do the joiners of that flight; not for the users driven through
 		// Take: collection.Cache.Take hands (nil, nil) to the joiners of a panicking fetch)
-		panicSec := via == "" && r.Chance(1, 4)
+		panicSec := r.Chance(1, 4)
+		// several instances of the object under test in one section (state must not leak between instances: the maps
+		// are per instance). Key n of instance i is written key=<100*i+n>; the targets use the SAME key string n on
+		// instance i, the monitor and the model see different keys: a flight / wait group / resource shared between
+		// instances shows up as a result of another key, a held call on instance 0 must not block instance 1.
+		objs := r.Pick(1, 1, 2, 3)
 		var ops []string
 		id := 0
 		if mode == "rm" && via == "" && r.Chance(1, 3) {
 			// pre-registered resources (Inject): GetResource must hand out exactly those, create never runs
-			for key := 0; key < k; key++ {
-				if r.Chance(1, 2) {
-					ops = append(ops, fmt.Sprintf("inject id=%d key=%d", 1000+key, key))
+			for ob := 0; ob < objs; ob++ {
+				for key := 0; key < k; key++ {
+					if r.Chance(1, 2) {
+						ops = append(ops, fmt.Sprintf("inject id=%d key=%d", 1000+100*ob+key, 100*ob+key))
+					}
 				}
 			}
 		}
@@ -485,6 +492,14 @@ func Gen(r *verifh.Rng, nsec int, via string) []verifh.Section {
 					} else if r.Chance(4, 5) {
 						key = r.Range(1, k-1)
 					}
+				}
+				if objs > 1 && !(holdSec && holder) {
+					// (the held call stays on instance 0; key 0 of the other instances is a different flight)
+					ob := r.Intn(objs)
+					if holdSec && ob > 0 && r.Chance(1, 2) {
+						key = 0
+					}
+					key += 100 * ob
 				}
 				var pre, yield int
 				switch style {
@@ -508,7 +523,11 @@ func Gen(r *verifh.Rng, nsec int, via string) []verifh.Section {
 					ex = 0
 				}
 				if mode != "sf" {
+					// (users with a second entry point into the same flight: cacheNode.TakeWithExpire)
 					ex = 0
+					if via != "" && r.Chance(1, 3) {
+						ex = 1
+					}
 				}
 				op := fmt.Sprintf("call id=%d g=%d key=%d ex=%d pre=%d yield=%d err=%d hold=%d",
 					id, gi, key, ex, pre, yield, serr, hold)
@@ -518,7 +537,10 @@ func Gen(r *verifh.Rng, nsec int, via string) []verifh.Section {
 				ops = append(ops, op)
 			}
 		}
-		cfg := fmt.Sprintf("mode=%s g=%d k=%d procs=%d", mode, g, k, procs)
+		cfg := fmt.Sprintf("mode=%s g=%d k=%d procs=%d objs=%d", mode, g, k, procs, objs)
+		if via != "" {
+			cfg += fmt.Sprintf(" opt=%d", r.Pick(0, 0, 1, 2))
+		}
 		if via != "" {
 			cfg += " via=" + via
 		}
